@@ -10,12 +10,14 @@ Flips(r) == {Flip(r, k) : k \in Keys} \cup
             {[r EXCEPT !.c4 = ~@], [r EXCEPT !.c6 = ~@], [r EXCEPT !.s4 = ~@], [r EXCEPT !.s6 = ~@],
              [r EXCEPT !.blocked4 = ~@], [r EXCEPT !.blocked6 = ~@], [r EXCEPT !.live = ~@], [r EXCEPT !.prescanned = ~@],
              [r EXCEPT !.share = ~@]} \cup
-            {[r EXCEPT !.registrant = x] : x \in Registrant} \cup {[r EXCEPT !.source = x] : x \in Source}
+            {[r EXCEPT !.registrant = x] : x \in Registrant} \cup {[r EXCEPT !.source = x] : x \in Source} \cup
+            {[r EXCEPT !.ovr = x] : x \in Override}
 \* single-condition neighbours of r (every flip is (close to) an involution, so r is a neighbour of an admitted row
 \* iff one of r's flips is admitted)
 Near(r) == (\E f \in Fam : Admit(r, f)) \/ (\E r2 \in Flips(r) : \E f \in Fam : Admit(r2, f))
 Keep(r) == Mode # "near" \/ Near(r)
-GenInit == /\ row \in (IF Mode = "sample" THEN RandomSubset(SampleSize, Rows) ELSE Rows)
+GenInit == /\ row \in (IF Mode = "sample" THEN RandomSubset(SampleSize \div 2, RowsPlain) \cup RandomSubset(SampleSize \div 2, RowsOvr)
+                        ELSE Rows)
            /\ out = [none |-> TRUE] /\ done = FALSE
 GenNext == /\ ~done /\ Keep(row) /\ out' = Code(row) /\ done' = TRUE /\ UNCHANGED row
 GenSpec == GenInit /\ [][GenNext]_vars
